@@ -314,6 +314,8 @@ structure MTally where
   other : Nat := 0
   firstOvertake : String := ""
   firstOther : String := ""
+  leak : Nat := 0
+  firstLeak : String := ""
   deriving Inhabited
 
 /-- judge one real parse of a two-mode grammar.  `events` = every lexing step of the real parser
@@ -355,15 +357,28 @@ def evalEvents (si : SetInfo) (valid : Array (List Nat)) (cps : String) (input :
   -- DIFFERENCE 1 through a MERGED lex state: the real lexer returned a token that is not valid in the
   -- parse state, longer and of lower precedence than the model's choice among the valid tokens
   -- (the pairwise conflict analysis behind `merge_token_set` does not see three-way overtakes)
-  let mergedOvertake := events.any (fun (tok, pos, en, state) =>
+  let leakKind (tok pos en state : Nat) : Nat :=   -- 0 none, 1 overtake, 2 continuation leak
     let rest := input.drop pos
     let inp := skipExtras isExtra rest
     let off := rest.length - inp.length
     let vs := valid.getD state []
-    tok < 100000 && !vs.contains tok && pos + off ≤ en &&
-      (match stateChoose si vs false inp with
-       | some (t', n') => decide ((tokAt si.toks t').prec > (tokAt si.toks tok).prec) && decide (en - pos - off > n')
-       | none => false))
+    if tok < 100000 && !vs.contains tok && pos + off ≤ en then
+      match stateChoose si vs false inp with
+      | some (t', n') =>
+        if en - pos - off > n' then
+          if (tokAt si.toks t').prec > (tokAt si.toks tok).prec then 1
+          -- the valid, completed token t' can itself continue on the next character: token_conflicts.rs then
+          -- does not count the longer token as a conflict ("successor contains the completed token") and lets
+          -- merge_token_set put it into this state's lex state
+          else if !(derivs (tokAt si.toks t').re (inp.take (n' + 1))).isEmpty then 2 else 0
+        else 0
+      | none => 0
+    else 0
+  let leaks := events.map (fun (tok, pos, en, state) => leakKind tok pos en state)
+  let mergedOvertake := leaks.any (· == 1)
+  let mergedLeak := leaks.any (· == 2)
+  if isErr && mergedLeak && !mergedOvertake then
+    return { a with leak := a.leak + 1, firstLeak := if a.firstLeak == "" then cps else a.firstLeak }
   if bad && !(isErr && mergedOvertake) then a := { a with corrBad := a.corrBad + 1, firstCorr := if a.firstCorr == "" then cps else a.firstCorr }
   if isErr && mergedOvertake then
     a := { a with overtake := a.overtake + 1, firstOvertake := if a.firstOvertake == "" then cps else a.firstOvertake }
@@ -426,9 +441,10 @@ def step (s : St) (line : String) : IO St := do
       return s
     let a := s.mt
     let corr := if a.corrBad == 0 then "ok" else s!"DIFF {a.firstCorr}"
-    let judge := if a.other > 0 then s!"FAIL other {a.firstOther}" else if a.overtake > 0 then s!"FAIL overtake {a.firstOvertake}" else "ok"
+    let judge := if a.other > 0 then s!"FAIL other {a.firstOther}" else if a.leak > 0 then s!"FAIL mergedleak {a.firstLeak}"
+      else if a.overtake > 0 then s!"FAIL overtake {a.firstOvertake}" else "ok"
     let distinctSets := (s.mvalid.toList.eraseDups).length
-    IO.println s!"S-{id} corr={corr} judge={judge} strings={a.strings} errors={a.errors} nontrivial={a.ctx} corrbad={a.corrBad} docdev={a.overtake + a.other} overtake={a.overtake} other={a.other} tokens={a.leaves} ntok={s.msi.toks.length} word={s.msi.word.isSome} keywords={s.msi.kws.length} reserved={s.msi.reserved.length} mode=true states={s.mvalid.size} validsets={distinctSets}"
+    IO.println s!"S-{id} corr={corr} judge={judge} strings={a.strings} errors={a.errors} nontrivial={a.ctx} corrbad={a.corrBad} docdev={a.overtake + a.other + a.leak} overtake={a.overtake} other={a.other} mergedleak={a.leak} tokens={a.leaves} ntok={s.msi.toks.length} word={s.msi.word.isSome} keywords={s.msi.kws.length} reserved={s.msi.reserved.length} mode=true states={s.mvalid.size} validsets={distinctSets}"
     return s
   | ["kw", l] => return { s with si := { s.si with kws := if l == "-" then [] else (l.splitOn ",").map natOf } }
   | ["ambig", l] =>
